@@ -223,6 +223,11 @@ def check_spec_against_cpython(pre, call, res, post, nid):
 
 def replay_edge(j, cname, e):
     pre, call, res, post, nid = e["pre"], e["call"], e["res"], e["post"], e["nid"]
+    if call["op"] == "copy" and cname.startswith("Spatial"):
+        # copy construction is documented by arghandler (poses, quaternions, twists) and by
+        # Plucker; the spatial-vector constructors do not document it and C10 does not list it
+        j.skip("copy-constructor of spatial-vector classes is not part of the C10 statement")
+        return None
     x = inject(cname, pre)
     got = perform(cname, x, call, nid)
     cid = (cname, call["op"], features(call, len(pre)))
@@ -249,6 +254,9 @@ def replay_path(j, cname, h):
     diverged = 0
     for step in h[1:]:
         call, res, post, nid = step["call"], step["res"], step["post"], step["nid"]
+        if call["op"] == "copy" and cname.startswith("Spatial"):
+            j.skip("copy-constructor of spatial-vector classes is not part of the C10 statement")
+            continue
         got = perform(cname, x, call, nid)
         mode = compare(cname, res, got)
         _, state = project(cname, x)
